@@ -8,7 +8,7 @@ import z3
 
 from . import e2
 from .automaton import Aut, SymString, encode_run, merge_classes, model_bytes, state_in
-from .common import (EXIT_INCONCLUSIVE, EXIT_OK, EXIT_VIOLATION, Timer, log, match_known, save_replay, seed, tier, write_evidence)
+from .common import (EXIT_INCONCLUSIVE, EXIT_OK, EXIT_VIOLATION, Timer, log, match_known, save_replay, seed, settle, tier, write_evidence)
 
 SLICE_LISTS = [
     "general",
@@ -49,9 +49,95 @@ def gen_schemas(tr, sd):
     return out
 
 
+LAZY_RX = ["[a-z]*x", "[a-z ]*;", "(.|\\n)*<end", "[a-z]{0,6}q", "[a-z0-9]*[0-9]"]
+GREEDY_RX = ["[a-z0-9]+", "[a-z ]+", "[^!]*", "[a-z]{1,12}", "(.|\\n)*"]
+LARK_HAND = [
+    # docs/syntax.md: free text interspersed with tool calls (a greedy TEXT and a lazy TEXT "<function" live in one lexer state)
+    'start: ( f_foo )* f_end\nf_end: TEXT\nTEXT: /(.|\\n)*/\nf_foo_hd[lazy]: TEXT "<function"\nf_foo: f_foo_hd "=foo>" /[0-9]+/ "</function>"\n',
+    'start: (lz | GR) "!"\nlz[lazy]: /[a-z]*x/\nGR: /[a-z0-9]+/\n',
+]
+
+
+def gen_lark(tr, sd):
+    """grammars in which a lazy and a greedy lexeme are live in the same lexer state"""
+    rng = random.Random(8100 + sd)
+    out = list(LARK_HAND)
+    for _ in range(6 if tr == "quick" else 40):
+        lz, gr = rng.choice(LAZY_RX), rng.choice(GREEDY_RX)
+        form = rng.randint(0, 2)
+        if form == 0:
+            out.append('start: (lz | GR) "!"\nlz[lazy]: /%s/\nGR: /%s/\n' % (lz, gr))
+        elif form == 1:
+            out.append('start: lz "!" | GR "?"\nlz[lazy]: /%s/\nGR: /%s/\n' % (lz, gr))
+        else:
+            out.append('start: (lz "=")* GR\nlz[lazy]: /%s/\nGR: /%s/\n' % (lz, gr))
+    return out
+
+
+def _joint(res, L, max_n, out):
+    """joint lexer states (several lexemes live): a positive verdict promises that every token of the slice keeps the lexeme going to its
+    last byte — the run must not die, and must not pass through a state in which the lexer ends the lexeme at once (a lazy lexeme
+    matching, StateDesc::lazy_accepting) before the last byte"""
+    slices = [Aut(a, a.get("lexeme")) if "error" not in a else None for a in res["slice_automata"]]
+    for ja in res.get("joint_automata") or []:
+        if "error" in ja:
+            continue
+        a = Aut(ja, -1)
+        if a.n > max_n:
+            out["skipped_big"] += 1
+            continue
+        out["joint_states"] += a.n
+        cut = [q for q in range(1, a.n) if ja["states"][q].get("lazy_acc")]
+        out["joint_lazy_live"] += sum(1 for q in range(1, a.n) if ja["states"][q].get("lazy_live"))
+        verd = [st.get("verdicts") or [] for st in ja["states"]]
+        for j, sa in enumerate(slices):
+            if sa is None:
+                continue
+            qs = set(q for q in range(1, a.n) if len(verd[q]) > j and verd[q][j] is True)
+            out["joint_pairs_true"] += len(qs)
+            if not qs:
+                continue
+            classes = merge_classes([a, sa])
+            sym = SymString(L)
+            c1, s1 = encode_run(a, sym, classes, "l", start_set=qs)
+            c2, s2 = encode_run(sa, sym, classes, "s")
+            acc_s = [q for q in range(sa.n) if sa.acc[q]]
+            s = z3.Solver()
+            s.set("timeout", 180000)
+            s.add(*c1)
+            s.add(*c2)
+            alts = []
+            for k in range(1, L + 1):
+                bad = [s1[k][0]] + [state_in(s1[i], cut) for i in range(1, k) if cut]
+                alts.append(z3.And(state_in(s2[k], acc_s), z3.Or(*bad)))
+            s.add(z3.Or(*alts))
+            t0 = time.time()
+            r = s.check()
+            out["solver_s"] += time.time() - t0
+            out["queries"] += 1
+            if r == z3.sat:
+                m = s.model()
+                bs = model_bytes(m, sym)
+                q0 = [q for q in qs if z3.is_true(m.eval(s1[0][q], model_completion=True))][0]
+                for k in range(1, L + 1):
+                    if not sa.accepts(bs[:k]):
+                        continue
+                    dead = a.run(bs[:k], q0) == 0
+                    early = [i for i in range(1, k) if a.run(bs[:i], q0) in cut]
+                    if dead or early:
+                        out["joint_cands"].append(dict(set=ja["set"], slice=j, state=q0, bytes=bs[:k], path=path_to(a, q0),
+                                                       why="dies" if dead else "lexeme ends after %d of %d bytes" % (early[0], k)))
+                        break
+                else:
+                    out["status"] = "nonrepro"
+            elif r != z3.unsat:
+                out["status"] = "unknown"
+
+
 def _work(args):
     idx, res, L, max_n = args
-    out = dict(idx=idx, status="ok", queries=0, solver_s=0.0, cands=[], pairs_true=0, pairs_false=0, twins=0, twins_sat=0, states=0, skipped_big=0)
+    out = dict(idx=idx, status="ok", queries=0, solver_s=0.0, cands=[], pairs_true=0, pairs_false=0, twins=0, twins_sat=0, states=0, skipped_big=0,
+               joint_states=0, joint_pairs_true=0, joint_lazy_live=0, joint_cands=[])
     if not res.get("ok"):
         out["status"] = "compile_error"
         out["note"] = str(res.get("error"))[:200]
@@ -111,6 +197,7 @@ def _work(args):
                         out["status"] = "nonrepro"
                 elif r != z3.unsat:
                     out["status"] = "unknown"
+    _joint(res, L, max_n, out)
     return out
 
 
@@ -139,16 +226,22 @@ def run():
     for s in schemas:
         for sl in (SLICE_LISTS if tr != "quick" else SLICE_LISTS[:2]):
             cases.append(dict(schema=s, slices=sl))
+    for t in gen_lark(tr, sd):
+        for sl in SLICE_LISTS[1:]:
+            cases.append(dict(text=t, slices=sl))
     inconclusive = []
     try:
-        jobs = [dict(op="subsume", kind="json", schema=c["schema"], slices=c["slices"], max_states=500, budget=1000) for c in cases]
+        jobs = [dict(op="subsume", kind="json", schema=c["schema"], slices=c["slices"], max_states=500, budget=1000, joint=True) if "schema" in c else
+                dict(op="subsume", kind="lark", text=c["text"], slices=c["slices"], max_states=500, budget=1000, joint=True) for c in cases]
         results = e2.run_jobs(jobs, chunk=4)
     except RuntimeError as ex:
         write_evidence(prop, "translation_validation", dict(evaluations=1, distinct_nontrivial=0, samples=["exporter build failed"]), tm.s(), 0, [])
         print("INCONCLUSIVE property=%s: %s" % (prop, str(ex)[:500]))
         return EXIT_INCONCLUSIVE
-    stats = dict(cases=len(cases), compiled=0, queries=0, solver_s=0.0, pairs_true=0, pairs_false=0, twins=0, twins_sat=0, states=0, skipped_big=0)
+    stats = dict(cases=len(cases), compiled=0, queries=0, solver_s=0.0, pairs_true=0, pairs_false=0, twins=0, twins_sat=0, states=0, skipped_big=0,
+                 joint_states=0, joint_pairs_true=0, joint_lazy_live=0, joint_unconfirmed=0)
     viol = []
+    jcands = []
     samples = []
     with ProcessPoolExecutor(max_workers=14) as ex:
         for o in ex.map(_work, [(i, results[i], L, 160 if tr == "quick" else 300) for i in range(len(cases))], chunksize=1):
@@ -163,13 +256,34 @@ def run():
             if o["status"] == "nonrepro":
                 inconclusive.append("case %d: model not confirmed on the exported tables" % i)
             stats["compiled"] += 1
-            for k in ("pairs_true", "pairs_false", "twins", "twins_sat", "states", "skipped_big"):
+            for k in ("pairs_true", "pairs_false", "twins", "twins_sat", "states", "skipped_big", "joint_states", "joint_pairs_true", "joint_lazy_live"):
                 stats[k] += o[k]
+            for cd in o["joint_cands"]:
+                jcands.append((i, cd))
             for cd in o["cands"]:
                 viol.append(("subsume-unsound", dict(property=prop, case=c, counterexample=cd, slices=results[i].get("slices"),
                                                       note="check_subsume says the slice is contained in the prefixes of the lexeme at this state, but this string of the slice language kills the lexeme")))
             if len(samples) < 10 and i % max(1, len(cases) // 9) == 0:
-                samples.append(dict(schema=c["schema"], slices=c["slices"], state_slice_pairs_contained=o["pairs_true"], not_contained=o["pairs_false"], string_bound=L))
+                samples.append(dict(schema=c.get("schema") or c.get("text"), slices=c["slices"], state_slice_pairs_contained=o["pairs_true"], not_contained=o["pairs_false"], string_bound=L))
+    # joint-state candidates: confirmed natively as a mask difference (engine with the slices vs engine without, vocabulary = single bytes + the token)
+    if jcands:
+        mj = []
+        for i, cd in jcands:
+            c = cases[i]
+            j = dict(op="maskdiff", slices=c["slices"], bytes=cd["path"] or [], tokens=[cd["bytes"]])
+            if "schema" in c:
+                j.update(kind="json", schema=c["schema"])
+            else:
+                j.update(kind="lark", text=c["text"])
+            mj.append(j)
+        for (i, cd), rr in zip(jcands, e2.run_jobs(mj)):
+            if rr.get("ok") and rr.get("diff"):
+                viol.append(("sliced-mask-differs", dict(property=prop, case=cases[i], counterexample=cd, mask_difference=rr["diff"][:5], slices_applied=rr.get("slices_applied"),
+                                                          note="positive containment verdict in a lexer state where the lexeme ends inside the token (%s); after the byte prefix `path` the engine with slices and the engine without disagree on the token" % cd["why"])))
+            else:
+                stats["joint_unconfirmed"] += 1
+        if stats["joint_unconfirmed"] and not viol:
+            inconclusive.append("%d joint-state models did not show a mask difference natively (lexeme set not reachable from the grammar start, or the masks agree)" % stats["joint_unconfirmed"])
     if stats["pairs_true"] == 0:
         inconclusive.append("no (state, slice) pair had a positive containment verdict: vacuous run")
     if stats["twins"] and stats["twins_sat"] == 0:
@@ -206,7 +320,8 @@ def run():
         log("  ", key, json.dumps(payload, default=str, ensure_ascii=False)[:500])
         reported += 1
     cov = dict(programs=stats["compiled"], disagreements_checked=len(viol), samples=samples or [dict(note="none")], tier=tr, cases=len(cases), compiled=stats["compiled"],
-               state_slice_pairs_with_positive_verdict=stats["pairs_true"], with_negative_verdict=stats["pairs_false"], lexeme_automaton_states=stats["states"],
+               state_slice_pairs_with_positive_verdict=stats["pairs_true"], with_negative_verdict=stats["pairs_false"], lexeme_automaton_states=stats["states"], joint_automaton_states=stats["joint_states"], joint_states_with_lazy_lexeme_live=stats["joint_lazy_live"],
+               joint_pairs_with_positive_verdict=stats["joint_pairs_true"], joint_models_unconfirmed=stats["joint_unconfirmed"],
                lexeme_automata_skipped_too_large=stats["skipped_big"], queries=stats["queries"], solver_s=round(stats["solver_s"], 2), vacuity_twins="%d/%d negative-verdict pairs have a witness string" % (stats["twins_sat"], stats["twins"]),
                functions_encoded=["earley/regexvec.rs subsume_possible / check_subsume (+ derivre is_contained_in_prefixes) — real verdicts per (state, slice)", "earley/lexerspec.rs add_extra_lexemes, to_regex_vec",
                                   "earley/slicer.rs general_slices/json_slices (slice lists), TokenizerSlice::from_topo_node + TokTrie::filter (tables dumped natively)", "json/compiler.rs string lexemes (maxLength/pattern/format/enum)"],
@@ -216,8 +331,7 @@ def run():
     write_evidence(prop, "translation_validation", cov, tm.s(), reported, assumptions)
     if reported:
         return EXIT_VIOLATION
-    if inconclusive:
-        print("INCONCLUSIVE property=%s: %s" % (prop, inconclusive[0][:300]))
+    if settle(prop, inconclusive, len(cases)):
         return EXIT_INCONCLUSIVE
     print("OK property=%s tier=%s cases=%d pairs_true=%d queries=%d (%.0fs)" % (prop, tr, len(cases), stats["pairs_true"], stats["queries"], tm.s()))
     return EXIT_OK
